@@ -67,19 +67,42 @@ pub fn schedule_policy(sim: &Sim, mode: u32, kind: LinkKind) -> RxPolicy {
     if kind == LinkKind::Serial && mode != 0 && mode != MODE_SWEEP {
         p.short_read = sim.pick(&[0u32, 30, 90]);
         p.interrupted = sim.pick(&[0u32, 10, 40]);
+        p.idle_ok0 = sim.pick(&[0u32, 0, 30]);
     }
     p
+}
+
+/// One direction of the link: what the sending endpoint writes and what the receiving
+/// endpoint has returned so far.
+struct Dir {
+    name: &'static str,
+    wire: crate::dev::WireRef,
+    planned: Vec<Packet>,
+    sent: usize,
+    sent_end: Vec<usize>,
+    received: usize,
+}
+
+fn frames_of_len(len: usize) -> usize {
+    if len <= 8 {
+        1
+    } else {
+        (len - 1) / 7 + 1
+    }
 }
 
 pub fn run(sim: &Sim, prop: &str, tier: Tier) -> Outcome {
     let kind = LinkKind::from_index(sim.draw(3));
     let mode = sim.draw(N_MODES);
-    let wire = Wire::new(kind);
-    let back = Wire::new(kind);
-    let mut tx = AnyLink::new(kind, Dev::new(sim, "tx", &back, &wire));
-    let mut rx = AnyLink::new(kind, Dev::new(sim, "rx", &wire, &back));
+    // endpoint 0 sends direction 0 and receives direction 1; endpoint 1 the other way round
+    let w01 = Wire::new(kind);
+    let w10 = Wire::new(kind);
+    let mut ep0 = AnyLink::new(kind, Dev::new(sim, "e0", &w10, &w01));
+    let mut ep1 = AnyLink::new(kind, Dev::new(sim, "e1", &w01, &w10));
 
     let mut planned: Vec<Packet> = Vec::new();
+    let mut planned_back: Vec<Packet> = Vec::new();
+    let mut long_burst: u32 = 0;
     if mode == MODE_SWEEP {
         let pair = SWEEP_PAIRS[sim.draw(SWEEP_PAIRS.len() as u32) as usize];
         for (i, len) in [pair.0, pair.1].iter().enumerate() {
@@ -90,11 +113,13 @@ pub fn run(sim: &Sim, prop: &str, tier: Tier) -> Outcome {
             });
         }
     } else {
-        wire.borrow_mut().policy = schedule_policy(sim, mode, kind);
+        w01.borrow_mut().policy = schedule_policy(sim, mode, kind);
         // rarely: one very long "no data yet" burst at one early unit position (on USART
-        // inside a frame this is a long wait that must simply be waited out)
+        // inside a frame this is a long wait that must simply be waited out; between two
+        // frames of a packet it is a long pause during which the partial packet must be kept)
         if sim.chance(1) {
-            wire.borrow_mut().forced_wb = Some((sim.draw(60) as usize, sim.pick(&[12_000u32, 70_000])));
+            long_burst = sim.pick(&[12_000u32, 70_000, 150_000]);
+            w01.borrow_mut().forced_wb = Some((sim.draw(60) as usize, long_burst));
             sim.probe("long_no_data_burst");
         }
         let max_packets = match tier {
@@ -139,33 +164,63 @@ pub fn run(sim: &Sim, prop: &str, tier: Tier) -> Outcome {
                 let again = planned[planned.len() - 1].clone();
                 planned.push(again);
                 sim.count("identical_consecutive_packets");
+            } else if !planned.is_empty() && sim.chance(8) {
+                // the previous packet with one thing changed (flag, address, one byte, length)
+                let mut p = planned[planned.len() - 1].clone();
+                match sim.draw(4) {
+                    0 => p.is_error = !p.is_error,
+                    1 => p.device_address = p.device_address.wrapping_add(1),
+                    2 => {
+                        if let Some(x) = p.data.last_mut() {
+                            *x ^= 1;
+                        }
+                    }
+                    _ => {
+                        if p.data.len() < 28672 {
+                            p.data.push(0x33);
+                        }
+                    }
+                }
+                planned.push(p);
+                sim.count("nearly_identical_consecutive_packets");
             } else {
                 planned.push(gen_packet(sim, sizes, &[a, b]));
             }
         }
+        // duplex: the receiving endpoint also transmits, the sending endpoint also receives
+        if !long_seq && sim.chance(40) {
+            w10.borrow_mut().policy = schedule_policy(sim, mode, kind);
+            let nback = 1 + sim.draw(4);
+            for _ in 0..nback {
+                planned_back.push(gen_packet(sim, SizeCfg { large_pct: 0, huge_pct: 0 }, &[a, b]));
+            }
+            sim.probe("duplex_traffic");
+        }
     }
-    let npk = planned.len();
     sim.set_sample(|| {
         format!(
-            "link={} schedule_mode={} policy={:?} packets=[{}]",
+            "link={} schedule_mode={} policy={:?} packets=[{}] reverse=[{}]",
             kind.name(),
             mode,
-            wire.borrow().policy,
-            planned.iter().map(show_packet).collect::<Vec<_>>().join(", ")
+            w01.borrow().policy,
+            planned.iter().map(show_packet).collect::<Vec<_>>().join(", "),
+            planned_back.iter().map(show_packet).collect::<Vec<_>>().join(", ")
         )
     });
 
     // (the device-level reading of "leaves the following ones queued" applies to receivers
     // that do not buffer input internally; see link_hostile::reads_ahead)
     let read_ahead = crate::link_hostile::reads_ahead(kind);
-    let mut sent: usize = 0;
-    let mut sent_end: Vec<usize> = Vec::new();
-    let mut received: usize = 0;
     let sig = |what: &str| format!("{}:{}", kind.name(), what);
+    let mut dirs = [
+        Dir { name: "e0->e1", wire: w01.clone(), planned, sent: 0, sent_end: Vec::new(), received: 0 },
+        Dir { name: "e1->e0", wire: w10.clone(), planned: planned_back, sent: 0, sent_end: Vec::new(), received: 0 },
+    ];
 
-    // One poll plus all per-poll clauses. Returns Some(outcome) to stop the run.
-    let mut do_poll = |rx: &mut AnyLink, sent: usize, sent_end: &Vec<usize>, received: &mut usize, live: bool| -> Option<Outcome> {
-        let out = poll(sim, "rx", rx, &wire);
+    // One poll of the receiving endpoint of direction `d` plus all per-poll clauses.
+    let do_poll = |rx: &mut AnyLink, d: &mut Dir, live: bool| -> Option<Outcome> {
+        let who = if d.name == "e0->e1" { "e1" } else { "e0" };
+        let out = poll(sim, who, rx, &d.wire);
         match &out.res {
             Err(Crash::Blocked) => {
                 return Some(fail(
@@ -184,8 +239,8 @@ pub fn run(sim: &Sim, prop: &str, tier: Tier) -> Outcome {
                 ))
             }
             Ok(Err(InterfaceError::NoPacketReceived)) => {
-                let start = if *received == 0 { 0 } else { sent_end[*received - 1] };
-                if out.cursor_after > start && *received < sent && out.cursor_after < sent_end[*received] {
+                let start = if d.received == 0 { 0 } else { d.sent_end[d.received - 1] };
+                if out.cursor_after > start && d.received < d.sent && out.cursor_after < d.sent_end[d.received] {
                     sim.probe("poll_ended_on_partial_packet");
                 }
                 // once all data has arrived, a poll that delivers nothing must at least have
@@ -195,8 +250,9 @@ pub fn run(sim: &Sim, prop: &str, tier: Tier) -> Outcome {
                         prop,
                         "C13.live",
                         format!(
-                            "all data has arrived and the device no longer answers 'no data yet'; {} packet(s) are outstanding, but the poll reported NoPacketReceived without taking any input",
-                            sent - *received
+                            "all data has arrived and the device no longer answers 'no data yet'; {} packet(s) are outstanding ({}), but the poll reported NoPacketReceived without taking any input",
+                            d.sent - d.received,
+                            d.name
                         ),
                         sig("live"),
                     ));
@@ -206,166 +262,214 @@ pub fn run(sim: &Sim, prop: &str, tier: Tier) -> Outcome {
                 return Some(fail(
                     prop,
                     "C13.noerr",
-                    format!("spurious error on clean traffic: {:?} (after {} of {} packets)", e, *received, sent),
+                    format!("spurious error on clean traffic: {:?} (after {} of {} packets, {})", e, d.received, d.sent, d.name),
                     sig("spurious-error"),
                 ))
             }
             Ok(Ok(p)) => {
-                if *received >= sent {
+                if d.received >= d.sent {
                     return Some(fail(
                         prop,
                         "C13.seq",
-                        format!("receiver returned a packet that was never sent: {}", show_packet(p)),
+                        format!("receiver returned a packet that was never sent ({}): {}", d.name, show_packet(p)),
                         sig("extra-packet"),
                     ));
                 }
-                let want = &planned[*received];
+                let want = &d.planned[d.received];
                 if !packet_eq(p, want) {
                     return Some(fail(
                         prop,
                         "C13.seq",
                         format!(
-                            "packet #{} differs: sent {} received {}",
-                            *received,
+                            "packet #{} ({}) differs: sent {} received {}",
+                            d.received,
+                            d.name,
                             show_packet(want),
                             show_packet(p)
                         ),
                         sig("packet-differs"),
                     ));
                 }
-                if !read_ahead && out.cursor_after != sent_end[*received] {
+                if !read_ahead && out.cursor_after != d.sent_end[d.received] {
                     return Some(fail(
                         prop,
                         "C13.one",
                         format!(
-                            "poll returned packet #{} after taking {} units from the device, but packets 0..={} occupy exactly {} units",
-                            *received, out.cursor_after, *received, sent_end[*received]
+                            "poll returned packet #{} after taking {} units from the device, but packets 0..={} occupy exactly {} units ({})",
+                            d.received, out.cursor_after, d.received, d.sent_end[d.received], d.name
                         ),
                         sig("units"),
                     ));
                 }
-                if wire.borrow().in_flight() > 0 {
+                if d.wire.borrow().in_flight() > 0 {
                     sim.probe("packets_queued_at_return");
                 }
-                *received += 1;
+                d.received += 1;
             }
         }
-        let st = {
-            let w = wire.borrow();
-            let start = if *received == 0 { 0 } else { sent_end[*received - 1] };
-            let phase = if w.cursor <= start { 0 } else { 1 + bucket(w.cursor - start) };
-            (phase << 8) | (bucket(w.in_flight()) << 4) | (matches!(out.res, Ok(Ok(_))) as u32)
-        };
-        sim.abstract_state(st);
+        if d.name == "e0->e1" {
+            let st = {
+                let w = d.wire.borrow();
+                let start = if d.received == 0 { 0 } else { d.sent_end[d.received - 1] };
+                let phase = if w.cursor <= start { 0 } else { 1 + bucket(w.cursor - start) };
+                (phase << 8) | (bucket(w.in_flight()) << 4) | (matches!(out.res, Ok(Ok(_))) as u32)
+            };
+            sim.abstract_state(st);
+        }
         None
     };
 
-    // ---- phase A: sends interleaved with polls, all under the drawn schedule
+    let do_send = |tx: &mut AnyLink, d: &mut Dir| -> Option<Outcome> {
+        let who = if d.name == "e0->e1" { "e0" } else { "e1" };
+        let p = &d.planned[d.sent];
+        match send(sim, who, tx, p) {
+            Ok(Ok(())) => {}
+            Ok(Err(e)) => {
+                return Some(fail(
+                    prop,
+                    "C13.send",
+                    format!("sender failed on a benign device: {:?} for {}", e, show_packet(p)),
+                    sig("send-error"),
+                ))
+            }
+            Err(c) => {
+                return Some(fail(
+                    prop,
+                    "C13.send",
+                    format!("sender crashed on a benign device: {:?} for {}", c, show_packet(p)),
+                    sig("send-crash"),
+                ))
+            }
+        }
+        if p.data.len() > 8 {
+            sim.probe("multi_frame_packet");
+        }
+        if p.data.len() > 1785 {
+            sim.probe("frame_id_over_255");
+        }
+        if p.data.len() > 28665 {
+            sim.probe("packet_4096_frames");
+        }
+        d.sent += 1;
+        d.sent_end.push(d.wire.borrow().len());
+        None
+    };
+
+    // ---- phase A: sends interleaved with polls in both directions, under the drawn schedule
     let mut consecutive_polls = 0;
-    while sent < npk {
-        let act_poll = consecutive_polls < 6 && sim.draw(3) != 0;
-        if act_poll {
-            consecutive_polls += 1;
-            if let Some(o) = do_poll(&mut rx, sent, &sent_end, &mut received, false) {
-                return o;
-            }
-        } else {
-            consecutive_polls = 0;
-            let p = &planned[sent];
-            match send(sim, "tx", &mut tx, p) {
-                Ok(Ok(())) => {}
-                Ok(Err(e)) => {
-                    return fail(
-                        prop,
-                        "C13.send",
-                        format!("sender failed on a benign device: {:?} for {}", e, show_packet(p)),
-                        sig("send-error"),
-                    )
-                }
-                Err(c) => {
-                    return fail(
-                        prop,
-                        "C13.send",
-                        format!("sender crashed on a benign device: {:?} for {}", c, show_packet(p)),
-                        sig("send-crash"),
-                    )
+    while dirs[0].sent < dirs[0].planned.len() || dirs[1].sent < dirs[1].planned.len() {
+        let (d0, d1) = dirs.split_at_mut(1);
+        let (d0, d1) = (&mut d0[0], &mut d1[0]);
+        let can0 = d0.sent < d0.planned.len();
+        let can1 = d1.sent < d1.planned.len();
+        let act = if consecutive_polls >= 6 { 0 } else { sim.draw(3) };
+        let o = match act {
+            0 => {
+                consecutive_polls = 0;
+                // which endpoint sends next
+                if can0 && (!can1 || sim.draw(3) != 2) {
+                    do_send(&mut ep0, d0)
+                } else {
+                    do_send(&mut ep1, d1)
                 }
             }
-            if p.data.len() > 8 {
-                sim.probe("multi_frame_packet");
+            1 => {
+                consecutive_polls += 1;
+                do_poll(&mut ep1, d0, false)
             }
-            if p.data.len() > 1785 {
-                sim.probe("frame_id_over_255");
+            _ => {
+                consecutive_polls += 1;
+                if d1.planned.is_empty() {
+                    do_poll(&mut ep1, d0, false)
+                } else {
+                    do_poll(&mut ep0, d1, false)
+                }
             }
-            if p.data.len() > 28665 {
-                sim.probe("packet_4096_frames");
-            }
-            sent += 1;
-            sent_end.push(wire.borrow().len());
+        };
+        if let Some(o) = o {
+            return o;
         }
     }
 
     if mode == MODE_SWEEP {
         // the sweep's single fault: a would-block burst at one unit position
-        let units = wire.borrow().len();
+        let units = w01.borrow().len();
         sim.count_n("sweep_units", units as u64);
         let pos = sim.draw(units as u32) as usize;
         let burst = SWEEP_BURSTS[sim.draw(SWEEP_BURSTS.len() as u32) as usize];
-        wire.borrow_mut().forced_wb = Some((pos, burst));
+        w01.borrow_mut().forced_wb = Some((pos, burst));
         sim.probe("sweep_case");
     }
 
     // ---- phase A': more polls under the schedule
-    let total_frames: usize = planned.iter().map(|p| if p.data.len() <= 8 { 1 } else { (p.data.len() - 1) / 7 + 1 }).sum();
+    let total_frames: usize = dirs[0].planned.iter().map(|p| frames_of_len(p.data.len())).sum();
+    let back_frames: usize = dirs[1].planned.iter().map(|p| frames_of_len(p.data.len())).sum();
     let extra = if mode == MODE_SWEEP {
         60
+    } else if long_burst > 0 {
+        // a long pause between two frames shows up as that many empty polls: sit it out
+        long_burst + 100
     } else {
-        sim.draw((2 * total_frames as u32 + 3).min(200))
+        sim.draw((2 * (total_frames + back_frames) as u32 + 3).min(200))
     };
-    for _ in 0..extra {
-        if received == npk && mode != MODE_SWEEP {
+    for k in 0..extra {
+        let (d0, d1) = dirs.split_at_mut(1);
+        let (d0, d1) = (&mut d0[0], &mut d1[0]);
+        let all = d0.received == d0.planned.len() && d1.received == d1.planned.len();
+        if all && mode != MODE_SWEEP {
             break;
         }
-        if let Some(o) = do_poll(&mut rx, sent, &sent_end, &mut received, false) {
+        let o = if d1.planned.is_empty() || k % 2 == 0 {
+            do_poll(&mut ep1, d0, false)
+        } else {
+            do_poll(&mut ep0, d1, false)
+        };
+        if let Some(o) = o {
             return o;
         }
     }
 
     // ---- phase B (liveness): data has arrived, no more "no data yet"
-    wire.borrow_mut().drain = true;
-    // every poll now either delivers a packet or takes input: bounded by packets + frames
-    let mut budget = (npk - received) + total_frames + 2;
-    while received < npk && budget > 0 {
-        budget -= 1;
-        if let Some(o) = do_poll(&mut rx, sent, &sent_end, &mut received, true) {
+    w01.borrow_mut().drain = true;
+    w10.borrow_mut().drain = true;
+    for di in 0..2 {
+        let frames = if di == 0 { total_frames } else { back_frames };
+        let d = &mut dirs[di];
+        // every poll now either delivers a packet or takes input: bounded by packets + frames
+        let mut budget = (d.planned.len() - d.received) + frames + 2;
+        while d.received < d.planned.len() && budget > 0 {
+            budget -= 1;
+            let o = if di == 0 { do_poll(&mut ep1, d, true) } else { do_poll(&mut ep0, d, true) };
+            if let Some(o) = o {
+                return o;
+            }
+        }
+        if d.received != d.planned.len() {
+            return fail(
+                prop,
+                "C13.seq",
+                format!("{} packets sent, {} received at quiescence ({})", d.planned.len(), d.received, d.name),
+                sig("count"),
+            );
+        }
+        // the poll after the last packet reports nothing
+        let o = if di == 0 { do_poll(&mut ep1, d, false) } else { do_poll(&mut ep0, d, false) };
+        if let Some(o) = o {
             return o;
         }
+        if d.wire.borrow().in_flight() != 0 {
+            return fail(
+                prop,
+                "C13.one",
+                format!("{} units left on the wire after all packets were returned ({})", d.wire.borrow().in_flight(), d.name),
+                sig("leftover"),
+            );
+        }
     }
-    if received != npk {
-        return fail(
-            prop,
-            "C13.seq",
-            format!("{} packets sent, {} received at quiescence", npk, received),
-            sig("count"),
-        );
-    }
-    // the poll after the last packet reports nothing
-    if let Some(o) = do_poll(&mut rx, sent, &sent_end, &mut received, false) {
-        return o;
-    }
-    if wire.borrow().in_flight() != 0 {
-        return fail(
-            prop,
-            "C13.one",
-            format!("{} units left on the wire after all packets were returned", wire.borrow().in_flight()),
-            sig("leftover"),
-        );
-    }
-    let w = wire.borrow();
-    if w.wb_inside_seen > 0 {
+    if w01.borrow().wb_inside_seen + w10.borrow().wb_inside_seen > 0 {
         sim.probe("wouldblock_inside_frame");
     }
-    if npk >= 2 {
+    if dirs[0].planned.len() >= 2 {
         sim.probe("multi_packet_sequence");
     }
     Outcome::Pass
